@@ -650,6 +650,21 @@ def rule_shift_recursion(ctx, R="C16.6"):
             ctx.missing(R, name + "/threshold", "the call of %s is not under a single threshold test on `right`: %s" % (other, [fact_str(f) for f in conds]))
             continue
         T[name] = thr
+        # the case that shifts the other way has no error exit of its own: every `?` / `return Err` of the function lies
+        # on the direct side of the threshold test (a count above p/2 never fits a machine word on the large primes;
+        # converting it before the dispatch turns `a >> (p - k)` into an error instead of `a << k`)
+        test = render(strip(conds[0][1])).replace(" ", "")
+        early = []
+        for x in walk(fn["body"]):
+            if x["k"] not in ("Try", "Return") or any(y is c for y in walk(x)):
+                continue
+            if x["k"] == "Return" and x.get("e") is not None and not re.search(r"\bErr\b", render(x["e"])):
+                continue
+            cx = conditions_to(fn["body"], x) or []
+            direct = any(f[0] == "if" and render(strip(f[1])).replace(" ", "") == test and f[2] != conds[0][2] for f in cx)
+            if not direct:
+                early.append("%s (line %s)" % (render(x)[:60], x.get("line")))
+        ctx.check(R, name + "/errors-only-in-the-direct-case", not early, "error exits outside the direct case `%s`: %s" % (test, early), site(MA, fn))
         ctx.ok(R, name + "/threshold", "direct case iff right <= %d*h%+d  (field = 2h+1)" % thr, site(MA, c))
     if len(T) == 2:
         a = T["shift_l"][0] + T["shift_r"][0]
@@ -666,5 +681,6 @@ def run(ctx):
     import c06
     import c11
 
+    ctx.include("C16.8", "literals enter the evaluator reduced modulo the prime (shared with C06.5): an operand outside [0, p) makes the operations that act on the representative (shifts, bit operations, comparisons) compute with the wrong integer", c06.rule_literals)
     ctx.include("C16.7", "prerequisite shared with C11.2: the modulus the operations are given is the curve's prime (the three literals equal the reference primes; constants are built from the selected curve)", c11.rule_primes)
     ctx.include("C16.5", "the constant evaluator reaches these operations with (left, right, prime) in order, takes fallible results only on Ok and has no shortcut that bypasses them (shared with C06.1)", c06.rule_operator_table)
